@@ -16,7 +16,7 @@ EXTRACT = ["C10"]
 BINS = ["c10"]
 NEEDS_CICADA = True
 ALLOWED_AXIOMS = []
-PINNED = ["C10_scan", "C10_full", "C10_refuted", "C10_partial", "C10_double_quoted", "C10_line", "C10_index_buffer", "C10_single_quoted", "C10_do_expansion_inert",
+PINNED = ["C10_scan", "C10_full", "C10_refuted", "C10_partial", "C10_double_quoted", "C10_gate_whole_word", "C10_refs_before_cmdsub", "C10_line", "C10_index_buffer", "C10_single_quoted", "C10_do_expansion_inert",
           "C10_values_not_rescanned"]
 TRUSTED = [
     "Coq 8.16.1 kernel (coqc; coqchk in thorough); vm_compute only in concrete witnesses / non-vacuity examples",
@@ -92,17 +92,30 @@ def ref_subst(word, env, status, pid):
     return "".join(out), pieces, flags
 
 
+_NAME = r"[a-zA-Z_][a-zA-Z0-9_]*"
+EXEMPT_SHAPES = [re.compile(r"^%s=`.*`\Z" % _NAME),            # NAME=`cmd ...`          (whole word)
+                 re.compile(r"^%s=\$\(.*\)\Z" % _NAME),       # NAME=$(cmd ...)         (whole word)
+                 re.compile(r"^\$\(.+\)\Z")]                  # $(cmd ...)              (whole word)
+EXEMPT_ALIAS = re.compile(r"='.*\$\{?%s\}?.*'\Z" % _NAME)      # ...='.. $NAME ..'       (at the end; not in double quotes)
+
+
 def classify(word, env, pieces, flags, tag=""):
-    """The DELIBERATE exemptions of the gate (not findings): shapes that postpone the expansion to an inner command
-    line (an open paren; an equals sign with a backquote) and, for tokens that are NOT double-quoted, the
-    alias-definition shape (an equals sign with a single quote: the user single-quoted that text).  Decidable on the
-    word and its tag; mirrors gate_ok / gate_ok_dq of Model/ExpandRef.v.  For such words only model == implementation
-    is demanded."""
-    if "(" in word or ("=" in word and "`" in word):
+    """The DELIBERATE exemptions of the gate (not findings), stated here independently of the model: a word that IS,
+    from its first to its last character, a command substitution or an assignment of one (the inner line is expanded
+    when it runs), and -- for tokens that are not double-quoted -- the alias-definition shape (the user single-quoted
+    that text).  Anything else, in particular a reference FOLLOWED by a command substitution ($A/$(cmd)), must be
+    expanded.  For exempt words only model == implementation is demanded."""
+    if any(r.search(word) for r in EXEMPT_SHAPES):
         return {"by_design_exemption"}
-    if tag != '"' and "=" in word and "'" in word:
+    if tag != '"' and EXEMPT_ALIAS.search(word):
         return {"by_design_exemption"}
     return set()
+
+
+# words in which plain references stand next to a command substitution (both orders, both spellings, assignments)
+CMDSUB_SHAPES = ["$A/$(echo sub)", "${A}$(x)", "$A and $(echo sub)", "p$A$(x)", "$(x)$A", "$(x)", "$(x $A)", "A=$(x $A)",
+                 "B=$A$(x)", "x$A=$(y)", "$A$(x)$(y)", "$(x)/$A/$(y)", "$A`x`", "B=`x $A`", "$A=`x`", "`x`$A", "${AB}-$(x)-$A",
+                 "$A/$(echo 'q')", "x='$A'$(y)"]
 
 
 def world_field(env, status=0, extra=()):
@@ -191,6 +204,10 @@ def run(ctx, res):
             cases.append((w, ei, rng.choice(["", "", '"'])))
     for w in rng.sample(words, min(len(words), 400)):
         cases.append((w, rng.randrange(len(ENVS)), "'"))
+    for w in CMDSUB_SHAPES:
+        for ei in range(len(ENVS)):
+            for tg in ("", '"'):
+                cases.append((w, ei, tg))
     status = 3
     lines = [C.case("env", world_field(ENVS[ei], status), str(FUEL), X.toks_field([(tg, w)])) for w, ei, tg in cases]
     p1 = C.write_cases("c10_l1.txt", lines)
@@ -254,9 +271,9 @@ def run(ctx, res):
             if not mm or C.dec(mm.group(1)) != w or C.dec(mm.group(2)) != refs[i][0]:
                 violate(kind="oracle-self-check", input=w, env=env_desc, model=md[i], python=refs[i][0],
                         failing_input=False, note="extracted den_pieces and the driver's one-pass reference disagree")
-            elif (mm.group(5 if tg == '"' else 4) == "T") != (not cls):
+            elif mm.group(5 if tg == '"' else 4) == "T" and cls:
                 violate(kind="oracle-self-check", input=w, env=env_desc, model=md[i], classes=sorted(cls),
-                        failing_input=False, note="gate_ok / gate_ok_dq (Coq) and the driver's exemption predicate disagree")
+                        failing_input=False, note="gate_ok / gate_ok_dq (Coq: sufficient for 'not exempt') holds of a word the driver calls exempt")
         if a != b:
             # model and implementation differ
             if got == exp:
@@ -284,18 +301,19 @@ def run(ctx, res):
     # ------------------------------------------------------------ L1l: whole token LISTS (index buffer + write-back)
     # every order of 2..3 tokens (sampled 4..5) over tags x texts: a quoted / skipped token in front of an expanded
     # one must not shift the write-back.  Oracle per token, positions preserved.
-    ltexts = ["$A", "x", "p${AB}q", "$B$A", "x='$A'", "~", "a{b,c}"]
+    ltexts = ["$A", "x", "p${AB}q", "$B$A", "x='$A'", "$A/$(x)", "~", "a{b,c}"]
     ltags = ["", '"', "'", "`", "\\"]
-    kinds = [(tg, tx) for tg in ltags for tx in ltexts[:5]]
+    kinds = [(tg, tx) for tg in ltags for tx in ltexts[:6]]
     lists = [list(t) for n in (2, 3) for t in itertools.product(kinds, repeat=n)
              if n == 2 or rng.random() < (0.5 if ctx.thorough else 0.12)]
     for _ in range(4000 if ctx.thorough else 800):
-        lists.append([(rng.choice(ltags), rng.choice(ltexts[:5])) for _ in range(rng.randint(4, 5))])
+        lists.append([(rng.choice(ltags), rng.choice(ltexts[:6])) for _ in range(rng.randint(4, 5))])
     lenv = ({"A": "va"}, {"B": "$A", "AB": "w w"})
     lw = world_field(lenv, 0)
     ll = [C.case("env", lw, str(FUEL), X.toks_field(t)) for t in lists]
     # do_expansion on lists without backquote-tagged tokens (those would be run as commands)
-    dlists = [[("", "echo")] + [(tg, tx) for tg, tx in t] for t in lists if all(tg != "`" for tg, _ in t)]
+    dlists = [[("", "echo")] + [(tg, tx) for tg, tx in t] for t in lists
+              if all(tg != "`" and "$(" not in tx for tg, tx in t)]      # no token that would run a command
     dlists = [t for t in dlists if rng.random() < 0.5]
     ll += [C.case("dx", lw + "\x1eH\x1d/home/u", "8", X.toks_field(t)) for t in dlists]
     pl = C.write_cases("c10_l1l.txt", ll)
@@ -392,9 +410,25 @@ def run(ctx, res):
         with ThreadPoolExecutor(max_workers=C.NCPU) as ex:
             outs = list(ex.map(one, enumerate(l2)))
         res.count("L2_cicada_argv", len(l2))
+        # references next to a command substitution (the gate must let such words through)
+        for arg, want in [("$A/$(/bin/echo sub)", "va/sub"), ('"$A and $(/bin/echo sub)"', "va and sub"),
+                          ("${A}$(/bin/echo sub)", "vasub"), ("$(/bin/echo $A)", "va"), ("p$A`/bin/echo sub`", "pvasub"),
+                          ('"$(/bin/echo sub)/$A"', "sub/va")]:
+            d = tempfile.mkdtemp(prefix="l2s_", dir=work)
+            try:
+                pr = subprocess.run([ctx.cicada, "-c", "%s @o %s" % (hp, arg)], cwd=d, stdin=subprocess.DEVNULL,
+                                    env={"PATH": "/usr/bin:/bin", "HOME": d, "XDG_CONFIG_HOME": d, "A": "va"},
+                                    stdout=subprocess.PIPE, stderr=subprocess.PIPE, timeout=10)
+                out = pr.stdout.decode("utf-8", "replace")
+            except subprocess.TimeoutExpired:
+                out = "HANG"
+            res.count("L2_reference_next_to_substitution", 1)
+            if out != want + "\n":
+                violate(kind="oracle", layer="L2", input="A=va; hp @o " + arg, expected=want, observed=out, failing_input=True,
+                        note="a reference next to a command substitution must be replaced, the adjacent text preserved")
         # several arguments with different quoting on one line (write-back positions)
         q2 = {"": "%s", '"': '"%s"', "'": "'%s'"}
-        l2l = [t for t in lists if all(tg in q2 for tg, _ in t) and all(tx not in ("~", "x='$A'") for _, tx in t)]
+        l2l = [t for t in lists if all(tg in q2 for tg, _ in t) and all(tx not in ("~", "x='$A'", "$A/$(x)") for _, tx in t)]
         l2l = rng.sample(l2l, min(len(l2l), 120 if ctx.thorough else 40))
 
         def one_l(t):
